@@ -107,6 +107,23 @@ CHECKS = {
          "DESIGN.md §5 C20"),
 }
 
+
+# workload extensions made after the seeded rounds, appended to the level text (DESIGN.md §5 "Extended ..." paragraphs)
+EXTRA = {
+ "C02": " Also driven: whole-knowledge-base replacement, timeouts expiring inside a slow action, date windows given as RFC 3339 text at a UTC offset, calls that return Err in mid-pass on an injected action failure, 21-32 rule cases.",
+ "C03": " Also driven: knowledge-base edits between calls, agenda groups handing the focus around (bound clauses only), remainder / quotient by a fact that is or becomes 0, extreme saliences, empty stores.",
+ "C06": " Also driven: histories of 40-200 operations over up to 150 facts, working_memory_mut().clear(), integers at and beyond the ends of i64.",
+ "C07": " Also driven: matched fact handles on agenda activations, auto_focus and ruleflow groups, and the firing order of the closure-driven engines with 1-80 no-loop rules and tied saliences (exact order).",
+ "C10": " Also driven: frame sequences of 12-40 operations over 10 keys, set_nested with a one-segment path, actions that fail half-way, negated queries.",
+ "C11": " Also driven: set_config / GRL-query steps, aggregate queries, caller-side undo frames, literals differing only in inner white space, fact bases of 30-45 additional facts.",
+ "C13": " Also driven: the generator and the late-data handler by hand with clear_side_output(), instants and delays up to the ends of u64, 1500-6000 late events, delays / bounds that are not round numbers with events exactly at the separating instants.",
+ "C14": " Also driven: sibling joins registered and unregistered, re-used event ids, sub-second and unbounded windows, instants in the upper half of u64, pairs of 20-150 events a side (5 merges each), and two producer threads on one StreamJoinManager (pairs handed to the handler = reference pairs, each once).",
+ "C15": " Also driven: batches loaded from GRL text, histories over a knowledge base and its clones (every instance against its own model), and a wide concurrent part (1 scripted writer, 3 readers, 65-520 rules; exact single-writer oracle over the states between the writer operations finished before the call and started before the return).",
+ "C16": " Also driven: histories of 40-300 operations (hundreds of indexed facts, 120 rule names), and the conclusion index as a BackwardEngine keeps it across knowledge-base edits and rebuild_index() (queries compared with an engine built from scratch).",
+ "C18": " Also driven: transitive-dependency views, empty and ?ALL patterns, and wide cases of 6-9 modules with 10-30 imports.",
+ "C19": " Also driven: reused engines (a decoy call first, possibly ending in a panicking worker), condition chains of 12-96 leaves in child processes, flat facts named like a dotted path, 65-200 rules with max_threads 32-256.",
+}
+
 def main():
     props = [json.loads(l) for l in open(os.path.join(ROOT, "properties.jsonl"))]
     hooks_commits = subprocess.run(["git", "-C", "/repo", "log", "--format=%h %s", "--grep=^verif-hooks"],
@@ -117,6 +134,7 @@ def main():
         has_bin = os.path.exists(os.path.join(ROOT, "harness/src/bin/%s.rs" % pid.lower()))
         if pid in CHECKS and has_bin:
             level, tech, text, note, ref = CHECKS[pid]
+            text = text + EXTRA.get(pid, "")
             checks.append({
                 "property_id": pid,
                 "quick_cmd": "./check %s --tier quick" % pid,
